@@ -13,23 +13,23 @@ open Gen
 theorem wfInv_of_same {s X : State} (h : WfInv s) (hpc : ∀ b, (X.pcAt b).callerOk = (s.pcAt b).callerOk) : WfInv X :=
   fun b => by rw [hpc]; exact h b
 
-theorem jobInv_wf_setChild {s : State} (hw : WfInv s) (h : JobInv s) (p : Nat) (c : Option Nat) :
+theorem jobInv_wf_setChild {s : State} (hw : WfInv s) (h : FullInv s) (p : Nat) (c : Option Nat) :
     WfInv (match s.acts[p]? with | some pv => s.setAct p { pv with child := c } | none => s) ∧
-    JobInv (match s.acts[p]? with | some pv => s.setAct p { pv with child := c } | none => s) := by
+    FullInv (match s.acts[p]? with | some pv => s.setAct p { pv with child := c } | none => s) := by
   split
   · next pv hpv =>
     have hpc : ∀ b, (s.setAct p { pv with child := c }).pcAt b = s.pcAt b := fun b => pcAt_setAct_samepc _ p pv { pv with child := c } hpv rfl b
-    exact ⟨wfInv_of_same hw (fun b => by rw [hpc]), JobInv.of_eq h (fun b => by rw [hpc]) (fun _ => rfl) (fun _ => rfl) (fun _ => rfl)⟩
+    exact ⟨wfInv_of_same hw (fun b => by rw [hpc]), FullInv.of_eq h (fun b => by rw [hpc]) (fun _ => rfl) (fun _ => rfl) (fun _ => rfl) (fun _ => rfl) rfl⟩
   · exact ⟨hw, h⟩
 
-theorem jobInv_wf_addAct {s s0 : State} (hw : WfInv s) (h : JobInv s) (t : Nat) (parent : Option Nat) (pc : Pc) (once : Bool)
+theorem jobInv_wf_addAct {s s0 : State} (hw : WfInv s) (h : FullInv s) (t : Nat) (parent : Option Nat) (pc : Pc) (once : Bool)
     (hpc1 : pc.callerOk = true) (hpc2 : pc.runningQ = none) (hacts : s0.acts = s.acts) (hj : s0.jobs = s.jobs) (hq : s0.qs = s.qs) :
-    WfInv (addAct s0 t parent pc once).1 ∧ JobInv (addAct s0 t parent pc once).1 := by
+    WfInv (addAct s0 t parent pc once).1 ∧ FullInv (addAct s0 t parent pc once).1 := by
   have hw0 : WfInv s0 := fun b => by simp only [State.pcAt, hacts]; exact hw b
-  have h0 : JobInv s0 := JobInv.congr h hacts hj hq
+  have h0 : FullInv s0 := FullInv.congr h hacts hj hq
   let n : Act := { thread := t, pc := pc, parent := parent, child := none, woken := false, result := none, mode := .await, once := once }
   have hw1 : WfInv ({ s0 with acts := s0.acts ++ [n], nextOp := s0.nextOp + 1 } : State) := callerOk_pcAt_append hw0 rfl hpc1
-  have h1 : JobInv ({ s0 with acts := s0.acts ++ [n], nextOp := s0.nextOp + 1 } : State) := JobInv.append_act h0 rfl hpc2 rfl rfl
+  have h1 : FullInv ({ s0 with acts := s0.acts ++ [n], nextOp := s0.nextOp + 1 } : State) := FullInv.append_act h0 rfl hpc2 rfl rfl
   unfold addAct
   cases parent with
   | none => exact ⟨hw1, h1⟩
@@ -40,8 +40,8 @@ theorem jobInv_wf_addAct {s s0 : State} (hw : WfInv s) (h : JobInv s) (t : Nat) 
     · next pv hpv => simp only [n, hpv] at this; exact this
     · exact ⟨hw1, h1⟩
 
-theorem jobInv_wf_invoke {s s' : State} {t a : Nat} {parent : Option Nat} {c : Call} (hw : WfInv s) (h : JobInv s)
-    (hs : invoke s t parent c = some (s', a)) : WfInv s' ∧ JobInv s' := by
+theorem jobInv_wf_invoke {s s' : State} {t a : Nat} {parent : Option Nat} {c : Call} (hw : WfInv s) (h : FullInv s)
+    (hs : invoke s t parent c = some (s', a)) : WfInv s' ∧ FullInv s' := by
   unfold invoke at hs
   cases c <;> simp only at hs
   all_goals (repeat' split at hs)
@@ -53,7 +53,7 @@ theorem jobInv_wf_invoke {s s' : State} {t a : Nat} {parent : Option Nat} {c : C
     refine jobInv_wf_addAct hw h t parent _ _ (by simp [Pc.callerOk]) (by simp [Pc.runningQ]) ?_ ?_ ?_ <;>
       (first | rfl | (split <;> (try split) <;> rfl)))
 
-theorem jobInv_wf_bodyEnd {s s' : State} {a : Nat} {o : Obs} (hw : WfInv s) (h : JobInv s) (hs : bodyEnd s a = some (s', o)) : WfInv s' ∧ JobInv s' := by
+theorem jobInv_wf_bodyEnd {s s' : State} {a : Nat} {o : Obs} (hw : WfInv s) (h : FullInv s) (hx : HeldExcl s.jobPQ) (hs : bodyEnd s a = some (s', o)) : WfInv s' ∧ FullInv s' := by
   unfold bodyEnd at hs
   split at hs
   · next act ha =>
@@ -65,11 +65,11 @@ theorem jobInv_wf_bodyEnd {s s' : State} {a : Nat} {o : Obs} (hw : WfInv s) (h :
         have hk := hw a
         rw [pcAt_of ha, hpc] at hk
         exact ⟨WfInv.keep_goto (s := s) (fun b => hw b) (by simpa [Pc.callerOk] using hk),
-               JobInv.frame h (fun _ => rfl) (fun _ => rfl) (fun _ => rfl) (fun _ hi => Or.inl hi) (by rw [pcAt_of ha, hpc]; rfl)⟩
+               FullInv.frame h hx (fun _ => rfl) (fun _ => rfl) (fun _ => rfl) (fun _ hi => Or.inl hi) (fun _ hi => hi) rfl (by rw [pcAt_of ha, hpc]; rfl)⟩
       · simp at hs
   · simp at hs
 
-theorem jobInv_wf_spuriousUnpark {s s' : State} {a : Nat} {o : Obs} (hw : WfInv s) (h : JobInv s) (hs : spuriousUnpark s a = some (s', o)) : WfInv s' ∧ JobInv s' := by
+theorem jobInv_wf_spuriousUnpark {s s' : State} {a : Nat} {o : Obs} (hw : WfInv s) (h : FullInv s) (hx : HeldExcl s.jobPQ) (hs : spuriousUnpark s a = some (s', o)) : WfInv s' ∧ FullInv s' := by
   unfold spuriousUnpark at hs
   split at hs
   · next act ha =>
@@ -79,11 +79,11 @@ theorem jobInv_wf_spuriousUnpark {s s' : State} {a : Nat} {o : Obs} (hw : WfInv 
       have hk := hw a
       rw [pcAt_of ha, hpc] at hk
       exact ⟨WfInv.keep_goto (s := s) (fun b => hw b) (by simpa [Pc.callerOk] using hk),
-             JobInv.frame h (fun _ => rfl) (fun _ => rfl) (fun _ => rfl) (fun _ hi => Or.inl hi) (by rw [pcAt_of ha, hpc]; rfl)⟩
+             FullInv.frame h hx (fun _ => rfl) (fun _ => rfl) (fun _ => rfl) (fun _ hi => Or.inl hi) (fun _ hi => hi) rfl (by rw [pcAt_of ha, hpc]; rfl)⟩
     · simp at hs
   · simp at hs
 
-theorem jobInv_wf_spuriousPoll {s s' : State} {a : Nat} (hw : WfInv s) (h : JobInv s) (hs : spuriousPoll s a = some s') : WfInv s' ∧ JobInv s' := by
+theorem jobInv_wf_spuriousPoll {s s' : State} {a : Nat} (hw : WfInv s) (h : FullInv s) (hx : HeldExcl s.jobPQ) (hs : spuriousPoll s a = some s') : WfInv s' ∧ FullInv s' := by
   unfold spuriousPoll at hs
   split at hs
   · next act ha =>
@@ -91,15 +91,15 @@ theorem jobInv_wf_spuriousPoll {s s' : State} {a : Nat} (hw : WfInv s) (h : JobI
     · next f hpc =>
       cases Option.some.inj hs
       exact ⟨WfInv.keep_goto (s := s) (fun b => hw b) (by simp [Pc.callerOk]),
-             JobInv.frame h (fun _ => rfl) (fun _ => rfl) (fun _ => rfl) (fun _ hi => Or.inl hi) (by rw [pcAt_of ha, hpc]; rfl)⟩
+             FullInv.frame h hx (fun _ => rfl) (fun _ => rfl) (fun _ => rfl) (fun _ hi => Or.inl hi) (fun _ hi => hi) rfl (by rw [pcAt_of ha, hpc]; rfl)⟩
     · next u hpc =>
       cases Option.some.inj hs
       exact ⟨WfInv.keep_goto (s := s) (fun b => hw b) (by simp [Pc.callerOk]),
-             JobInv.frame h (fun _ => rfl) (fun _ => rfl) (fun _ => rfl) (fun _ hi => Or.inl hi) (by rw [pcAt_of ha, hpc]; rfl)⟩
+             FullInv.frame h hx (fun _ => rfl) (fun _ => rfl) (fun _ => rfl) (fun _ hi => Or.inl hi) (fun _ hi => hi) rfl (by rw [pcAt_of ha, hpc]; rfl)⟩
     · simp at hs
   · simp at hs
 
-theorem jobInv_wf_ret {s s' : State} {a r : Nat} (hw : WfInv s) (h : JobInv s) (hs : retStep s a = some (s', r)) : WfInv s' ∧ JobInv s' := by
+theorem jobInv_wf_ret {s s' : State} {a r : Nat} (hw : WfInv s) (h : FullInv s) (hx : HeldExcl s.jobPQ) (hs : retStep s a = some (s', r)) : WfInv s' ∧ FullInv s' := by
   unfold retStep at hs
   split at hs
   · next act ha =>
@@ -107,8 +107,8 @@ theorem jobInv_wf_ret {s s' : State} {a r : Nat} (hw : WfInv s) (h : JobInv s) (
     · next hpc =>
       obtain ⟨rfl, _⟩ := Prod.mk.inj (Option.some.inj hs)
       have hw1 : WfInv (s.setAct a { act with pc := .dead }) := WfInv.keep_setAct (s := s) (fun b => hw b) (by simp [Pc.callerOk])
-      have h1 : JobInv (s.setAct a { act with pc := .dead }) :=
-        JobInv.frame_setAct h (fun _ => rfl) (fun _ => rfl) (fun _ => rfl) (fun _ hi => Or.inl hi) (by rw [pcAt_of ha, hpc]; rfl)
+      have h1 : FullInv (s.setAct a { act with pc := .dead }) :=
+        FullInv.frame_setAct h hx (fun _ => rfl) (fun _ => rfl) (fun _ => rfl) (fun _ hi => Or.inl hi) (fun _ hi => hi) rfl (by rw [pcAt_of ha, hpc]; rfl)
       split
       · next p hp => exact jobInv_wf_setChild hw1 h1 p none
       · exact ⟨hw1, h1⟩
@@ -116,17 +116,18 @@ theorem jobInv_wf_ret {s s' : State} {a r : Nat} (hw : WfInv s) (h : JobInv s) (
   · simp at hs
 
 /-- **I_job and the well-formedness of caller continuations hold in every reachable state.** -/
-theorem jobInv_reachable {s : State} (hr : Reachable s) : WfInv s ∧ JobInv s := by
+theorem fullInv_reachable {s : State} (hr : Reachable s) : WfInv s ∧ FullInv s := by
   induction hr with
-  | init nq ng max => exact ⟨wfInv_init nq ng max, jobInv_init nq ng max⟩
+  | init nq ng max => exact ⟨wfInv_init nq ng max, fullInv_init nq ng max⟩
   | step l hprev hstep ih =>
     obtain ⟨hw, h⟩ := ih
     have hh := holderInv_reachable hprev
+    have hx := heldExcl_of hh hw h.job
     cases l with
     | act a =>
       simp only [next, Option.map_eq_some_iff] at hstep
       obtain ⟨⟨s1, o⟩, hs, rfl⟩ := hstep
-      exact ⟨wfInv_stepAct hw hs, jobInv_stepAct hh hw h hs⟩
+      exact ⟨wfInv_stepAct hw hs, fullInv_stepAct hh hw h hs⟩
     | invoke t parent c =>
       simp only [next] at hstep
       split at hstep
@@ -137,23 +138,24 @@ theorem jobInv_reachable {s : State} (hr : Reachable s) : WfInv s ∧ JobInv s :
     | bodyEnd a =>
       simp only [next, Option.map_eq_some_iff] at hstep
       obtain ⟨⟨s1, o⟩, hs, rfl⟩ := hstep
-      exact jobInv_wf_bodyEnd hw h hs
+      exact jobInv_wf_bodyEnd hw h hx hs
     | ret a =>
       simp only [next, Option.map_eq_some_iff] at hstep
       obtain ⟨⟨s1, r⟩, hs, rfl⟩ := hstep
-      exact jobInv_wf_ret hw h hs
+      exact jobInv_wf_ret hw h hx hs
     | spuriousUnpark a =>
       simp only [next, Option.map_eq_some_iff] at hstep
       obtain ⟨⟨s1, o⟩, hs, rfl⟩ := hstep
-      exact jobInv_wf_spuriousUnpark hw h hs
+      exact jobInv_wf_spuriousUnpark hw h hx hs
     | spuriousPoll a =>
       simp only [next] at hstep
-      exact jobInv_wf_spuriousPoll hw h hstep
+      exact jobInv_wf_spuriousPoll hw h hx hstep
 
 /-- a job that is being run is run by an activity that owns the run right of the job's queue -/
 theorem held_job_owner_holds {s : State} (hr : Reachable s) {j a : Nat} {b : Job} (hb : s.jobs[j]? = some b) (hph : b.ph = .held a) :
     (s.pcAt a).holds b.q = true ∧ s.holder[b.q]? = some (some a) := by
-  obtain ⟨hw, h⟩ := jobInv_reachable hr
+  obtain ⟨hw, hf⟩ := fullInv_reachable hr
+  have h := hf.job
   have hrun := h.run2 a j b.q (by rw [jobPQ_of hb, hph])
   have hholds := holds_of_runningQ (hw a) hrun
   exact ⟨hholds, ((holderInv_reachable hr).iff a b.q).mp hholds⟩
@@ -162,7 +164,8 @@ theorem held_job_owner_holds {s : State} (hr : Reachable s) {j a : Nat} {b : Job
 theorem running_jobs_exclusive {s : State} (hr : Reachable s) {j1 j2 a1 a2 : Nat} {b1 b2 : Job}
     (h1 : s.jobs[j1]? = some b1) (h2 : s.jobs[j2]? = some b2) (hq : b1.q = b2.q)
     (hp1 : b1.ph = .held a1) (hp2 : b2.ph = .held a2) : j1 = j2 := by
-  obtain ⟨hw, h⟩ := jobInv_reachable hr
+  obtain ⟨hw, hf⟩ := fullInv_reachable hr
+  have h := hf.job
   have o1 := (held_job_owner_holds hr h1 hp1).2
   have o2 := (held_job_owner_holds hr h2 hp2).2
   rw [hq] at o1
@@ -183,7 +186,8 @@ open Gen
 completion or destruction, including every suspension of a future operation at an await — in every reachable state:
 any number of objects, threads and calls, any pool size, any interleaving. -/
 theorem exclusive_reachable {s : State} (hr : Reachable s) : Exclusive s := by
-  obtain ⟨hw, h⟩ := jobInv_reachable hr
+  obtain ⟨hw, hf⟩ := fullInv_reachable hr
+  have h := hf.job
   intro j1 j2 b1 b2 h1 h2 hq ho1 ho2
   have o1 : s.jobOpen j1 = true := by rw [jobOpen_of h1]; exact ho1
   have o2 : s.jobOpen j2 = true := by rw [jobOpen_of h2]; exact ho2
@@ -208,5 +212,23 @@ theorem exclusive_reachable {s : State} (hr : Reachable s) : Exclusive s := by
     rw [hl1] at hl2
     simp at hl2
     exact hl2.1
+
+end Desync
+
+namespace Desync
+open Gen
+
+theorem jobInv_reachable {s : State} (hr : Reachable s) : WfInv s ∧ JobInv s :=
+  ⟨(fullInv_reachable hr).1, (fullInv_reachable hr).2.job⟩
+
+/-- **C02 in the model: operations run in the order in which their scheduling calls were made.**  Job ids are allocated
+inside the scheduling call, under the queue lock; in every reachable state an operation has begun only if every operation
+accepted earlier on the same object has ended. -/
+theorem inOrder_reachable {s : State} (hr : Reachable s) : InOrder s := by
+  obtain ⟨_, hf⟩ := fullInv_reachable hr
+  intro j1 j2 b1 b2 h1 h2 hq hlt hb
+  have := hf.ord.order j1 j2 b1.q b1.ph b2.ph hlt (jobPQ_of h1) (by rw [jobPQ_of h2, hq]) (by rw [jobB_of h2]; exact hb)
+  rw [jobE_of h1] at this
+  exact this
 
 end Desync
